@@ -3,6 +3,7 @@
 //! Usage: harness <cases> <out> [start]
 //! Results are flushed per case so that an abort (stack overflow) identifies
 //! the case that died: the caller restarts at the following case.
+mod astprint;
 mod codec;
 use codec::*;
 use rscel::{CelValue, CelValueDyn};
@@ -31,10 +32,9 @@ fn binop(name: &str, a: CelValue, b: CelValue) -> Result<CelValue, String> {
 }
 
 fn program_from_code(code: Vec<rscel::ByteCode>) -> Result<rscel::Program, String> {
-    // Program::new needs the unnameable CelByteCode; go through serde.
-    let bc = serde_json::to_value(&code).map_err(|e| e.to_string())?;
-    let j = serde_json::json!({"details": {"source": null, "params": []}, "bytecode": {"inner": bc}});
-    serde_json::from_value::<rscel::Program>(j).map_err(|e| e.to_string())
+    // CelByteCode is not nameable from outside the crate, but it is
+    // From<Vec<ByteCode>> and inference finds it.
+    Ok(rscel::Program::new(rscel::ProgramDetails::new(), code.into()))
 }
 
 fn expect(t: &mut Toks, s: &str) -> Result<(), String> {
@@ -94,7 +94,7 @@ fn run_ctx(
     let r = ctx.exec(entry, &bctx);
     let mut out = match r {
         Ok(v) => format!("OK {}", value_string(&v)),
-        Err(e) => return format!("ERR {}", print_err(&e)),
+        Err(e) => format!("ERR {}", print_err(&e)),
     };
     out.push_str(" LOG(");
     CALL_LOG.with(|l| {
@@ -144,6 +144,62 @@ fn parse_ufuncs(t: &mut Toks) -> Result<Vec<(String, UFun)>, String> {
         v.push((n, u));
     }
     Ok(v)
+}
+
+fn print_token(out: &mut String, t: &rscel::verif_hooks::Token) {
+    use rscel::verif_hooks::{FStringSegment, Token};
+    match t {
+        Token::BoolLit(b) => out.push_str(if *b { "Bool:1" } else { "Bool:0" }),
+        Token::IntLit(v) => out.push_str(&format!("Int:{}", v)),
+        Token::UIntLit(v) => out.push_str(&format!("UInt:{}", v)),
+        Token::FloatLit(f) => out.push_str(&format!("Float:{:016x}", f64_bits_canon(*f))),
+        Token::StringLit(s) => out.push_str(&format!("Str:{}", hex(s.as_bytes()))),
+        Token::FStringLit(segs) => {
+            out.push_str("FStr:");
+            for (i, sg) in segs.iter().enumerate() {
+                if i > 0 {
+                    out.push(',');
+                }
+                match sg {
+                    FStringSegment::Lit(s) => out.push_str(&format!("L{}", hex(s.as_bytes()))),
+                    FStringSegment::Expr(s) => out.push_str(&format!("E{}", hex(s.as_bytes()))),
+                }
+            }
+        }
+        Token::ByteStringLit(b) => out.push_str(&format!("Bytes:{}", hex(b.as_slice()))),
+        Token::Ident(s) => out.push_str(&format!("Ident:{}", hex(s.as_bytes()))),
+        other => out.push_str(&format!("{:?}", other)),
+    }
+}
+
+fn lex_case(src: &str) -> String {
+    use rscel::Tokenizer;
+    let mut tz = rscel::StringTokenizer::with_input(src);
+    let mut out = String::new();
+    loop {
+        match tz.next() {
+            Ok(Some(t)) => {
+                print_token(&mut out, &t.token);
+                out.push_str(&format!(
+                    "@{}:{}-{}:{} ",
+                    t.loc.start().line(),
+                    t.loc.start().col(),
+                    t.loc.end().line(),
+                    t.loc.end().col()
+                ));
+            }
+            Ok(None) => {
+                let l = tz.location();
+                out.push_str(&format!("END@{}:{}", l.line(), l.col()));
+                break;
+            }
+            Err(e) => {
+                out.push_str(&format!("ERR@{}:{}", e.loc().line(), e.loc().col()));
+                break;
+            }
+        }
+    }
+    out
 }
 
 fn run_case(line: &str) -> Result<String, String> {
@@ -231,9 +287,31 @@ fn run_case(line: &str) -> Result<String, String> {
             code.push(rscel::ByteCode::Call(n as u32));
             let prog = program_from_code(code)?;
             let r = run_ctx("main", vec![("main".to_string(), prog)], vec![], vec![]);
+            let r = r.trim_end_matches(" LOG( )").to_string();
             Ok(match r.strip_prefix("OK ") {
-                Some(rest) => rest.trim_end_matches(" LOG( )").to_string(),
+                Some(rest) => rest.to_string(),
                 None => r.strip_prefix("ERR ").unwrap_or(&r).to_string(),
+            })
+        }
+        "lex" => {
+            let src = match parse_value(&mut t)? {
+                CelValue::String(s) => s,
+                _ => return Err("lex: source".to_string()),
+            };
+            Ok(lex_case(&src))
+        }
+        "parse" => {
+            let src = match parse_value(&mut t)? {
+                CelValue::String(s) => s,
+                _ => return Err("parse: source".to_string()),
+            };
+            Ok(match rscel::Program::from_source(&src) {
+                Ok(p) => {
+                    let mut out = String::from("OK ");
+                    astprint::expr(&mut out, p.ast().ok_or("no ast")?);
+                    out
+                }
+                Err(e) => format!("ERR {}", print_err(&e)),
             })
         }
         "compile" => {
